@@ -7,8 +7,9 @@ Require Import Nib.C20.SMapDef Nib.C20.Model Nib.C20.Eqdec.
 
 Definition keys_matchb {V} (f : V -> nat) (m : smap V) : bool := forallb (fun kv => f (snd kv) =? fst kv) m.
 
-Definition wf_epochsb (s : epochs_st) : bool :=
-  sortedb s && keys_matchb ep_id s && forallb (fun kv => negb (Z.eqb (ep_start (snd kv)) zero_time)) s.
+Definition wf_epochsb (empty : key) (s : epochs_st) : bool :=
+  sortedb s && keys_matchb ep_id s && forallb (fun kv => negb (Z.eqb (ep_start (snd kv)) zero_time)) s &&
+  forallb (fun kv => epoch_valid EpValNonneg empty (snd kv)) s.     (* EpochInfo.Validate accepts every stored epoch *)
 
 Fixpoint zsortedb {V} (m : list (Z * V)) : bool :=
   match m with
@@ -67,5 +68,5 @@ Definition pairs_json_fixedb (F : funs) (s : oracle_st) : bool :=
 
 Definition wf_appb (F : funs) (env : list authacc) (s : app_st) : bool :=
   (match a_sudo s with Some _ => true | None => false end) &&
-  wf_epochsb (a_epochs s) && wf_oracleb (a_oracle s) && wf_tfb F (a_tf s) && wf_devgasb F (a_devgas s) &&
+  wf_epochsb (f_empty F) (a_epochs s) && wf_oracleb (a_oracle s) && wf_tfb F (a_tf s) && wf_devgasb F (a_devgas s) &&
   wf_evmb F (a_evm s) && env_sortedb env && pairs_json_fixedb F (a_oracle s).
